@@ -933,11 +933,14 @@ fn match_ty<I: Interner>(
             .db
             .fn_def_datum(*fn_def_id)
             .to_program_clauses(builder, environment),
-        TyKind::Str
-        | TyKind::Never
-        | TyKind::Scalar(_)
-        | TyKind::Foreign(_)
-        | TyKind::Tuple(0, _) => {
+        TyKind::Str | TyKind::Never | TyKind::Scalar(_) | TyKind::Tuple(0, _) => {
+            // These have no substitutions, so they are trivially WF
+            builder.push_fact(WellFormed::Ty(ty.clone()));
+            // Built-in types mention no type parameters, so they are fully
+            // visible (this matters for the orphan rules).
+            builder.push_fact(DomainGoal::IsFullyVisible(ty.clone()));
+        }
+        TyKind::Foreign(_) => {
             // These have no substitutions, so they are trivially WF
             builder.push_fact(WellFormed::Ty(ty.clone()));
         }
@@ -1047,6 +1050,13 @@ fn match_ty<I: Interner>(
                 );
 
                 let tuple_ty = TyKind::Tuple(*len, substs.clone()).intern(interner);
+                // Tuples are fully visible when all of their elements are.
+                builder.push_clause(
+                    DomainGoal::IsFullyVisible(tuple_ty.clone()),
+                    substs.iter(interner).map(|subst| {
+                        DomainGoal::IsFullyVisible(subst.assert_ty_ref(interner).clone())
+                    }),
+                );
                 let sized = builder.db.well_known_trait_id(WellKnownTrait::Sized);
                 builder.push_clause(
                     WellFormed::Ty(tuple_ty),
